@@ -636,11 +636,16 @@ def case_bnd(R, T, I, case):
         sig = 'bounds:%s:value-outside' % fn
         if fn == 'supst' and T13 < t <= TC67 and lb23(t) < p <= ksat(t): sig = 'bounds:supst:value-in-subregion3(350-374.15degC)'
         R.check(none, sig, '%s(%s, bounds=True) = %r although the state is outside the documented range' % (fn, state, on))
-    # asking again gives the same answer
+    # asking again gives the same answer - the second time with the flag given positionally, as the documented
+    # signatures cowat(t, p, bounds), supst(t, p, bounds), sat(t, bounds), tsat(p, bounds) allow
     with R.lib(fn):
-        again = f(*args, bounds=True)
+        again = f(*(tuple(args) + (True,)))
     none2 = again is None or (isinstance(again, tuple) and all(v is None for v in again))
-    R.check(none2 == none, 'bounds:%s:answer-changes-on-repeat' % fn, '%s(%s, bounds=True) = %r, then %r' % (fn, state, on, again))
+    R.check(none2 == none, 'bounds:%s:answer-changes-on-repeat' % fn, '%s(%s, bounds=True) = %r, then %s(%s, True) = %r' % (
+        fn, state, on, fn, state, again))
+    if not none and not none2:
+        same = (tuple(float(v) for v in on) == tuple(float(v) for v in again)) if isinstance(on, tuple) else float(on) == float(again)
+        R.check(same, 'bounds:%s:positional-flag-differs' % fn, '%s(%s, bounds=True) = %r but %s(%s, True) = %r' % (fn, state, on, fn, state, again))
 
 
 def case_reg(R, T, I, t, p):
